@@ -50,6 +50,19 @@ def check(repo: Repo) -> Result:
     from rules import c16
     from rules.common import share
 
+    # every check above compares the dimensions the unit table assigns: a row with the wrong dimension makes two
+    # incommensurable quantities look commensurable (klf filed as a pressure adds to ksf).  Dimension column of every
+    # row against the independent definitions (spec/unit_definitions.py) - the scale column is C02's business
+    from engine.fold import DimVec, Tables
+    from spec import unit_definitions as _UD
+
+    r9 = res.rule("C01-R9", "the dimension the unit table gives each unit is the unit's physical dimension", floor=140)
+    t_ = Tables(repo)
+    for sym_, row_ in t_.lut_pairs:
+        if sym_ not in _UD.UNITS:
+            continue
+        want_ = DimVec(_UD.UNITS[sym_][0])
+        res.check(row_[1] == want_, f"dimension:{sym_}", f"unyt/_unit_lookup_table.py row {sym_!r}", f"unit {sym_!r} is filed with dimension {row_[1]} but is a {want_}: the dimension checks let it be added to, compared with and converted into units of the wrong kind", str(want_), str(row_[1]), rid=r9)
     r8 = res.rule("C01-R8", "a list operand is coerced to one unit only when every element's unit equals the first element's (an element without units counts as the null unit, never as matching)", floor=2)
     share(res, r8, "C16", lambda t: c16.accessors(repo, t), ["C16-R2"], want=lambda k: k.startswith("coerce-list"), min_keys=2)
     return res
@@ -260,6 +273,19 @@ def merging_handlers(repo, res):
         saw = True
         ok &= x.has(bare, False) and f"_validate_units_consistency((1 * {ref}, *{var}))" in x.effects
     res.check(ok and saw, "v2", fn2.where(), "v2 must validate the reference unit together with all further operands unless they are all bare numbers", rid=r4v)
+    # the validator of the ustack / uconcatenate / ... wrappers: the result is labelled with the first array's unit
+    # only when ALL further arrays carry that unit
+    wv = repo.mod(ARR).func("_validate_numpy_wrapper_units")
+    res.fn(wv)
+    arrs_p = wv.params[1]
+    ok_w, n_w = True, 0
+    for x in summarise(wv):
+        if x.kind == "raise" or not any(".units =" in e for e in x.effects):
+            continue  # refused, or nothing is labelled (no unyt array among the inputs)
+        n_w += 1
+        allfacts = [t for t, tr in x.facts if tr and t.startswith("all(") and ".units ==" in t and f"{arrs_p}[0].units" in t and f"in {arrs_p}[1:]" in t]
+        ok_w &= bool(allfacts) and not any(tr and t.startswith("any(") and ".units ==" in t for t, tr in x.facts)
+    res.check(ok_w and n_w >= 1, "wrapper-validator", wv.where(), "the u* wrappers (uconcatenate, ustack ...) label the merged result with the first array's unit: every further array must be required to carry that unit (all(...)), one matching array is not enough", f"all(a.units == {arrs_p}[0].units for a in {arrs_p}[1:])", [sorted(t for t, tr in x.facts if tr) for x in summarise(wv) if x.kind != "raise"][:2], rid=r4v)
     g = mod.func("get_units")
     res.fn(g)
     arms = {}
